@@ -15,6 +15,10 @@ type StageSpec struct {
 	Cond   string     `json:"cond,omitempty"` // "", "true", "false", "missing"
 	Nested *GraphSpec `json:"nested,omitempty"`
 	Task   string     `json:"task,omitempty"` // INTEG: name of the task this stage runs (default: the stage's own name)
+	// Real: the name the stage carries in the pipeline handed to taskctl (default: Name). Names
+	// are unique per pipeline only: a nested pipeline may well reuse the stage names of the
+	// pipeline that nests it. Name stays unique across the world (oracle bookkeeping).
+	Real string `json:"real,omitempty"`
 	// INTEG/C08: per-stage overrides
 	Env  map[string]string `json:"env,omitempty"`
 	Vars map[string]string `json:"vars,omitempty"`
@@ -24,6 +28,26 @@ type StageSpec struct {
 type GraphSpec struct {
 	Name   string       `json:"name"`
 	Stages []*StageSpec `json:"stages"` // declaration order
+}
+
+func (s *StageSpec) RealName() string {
+	if s.Real != "" {
+		return s.Real
+	}
+	return s.Name
+}
+
+// RealDeps: the dependencies by the names they carry in the real pipeline.
+func (g *GraphSpec) RealDeps(s *StageSpec) []string {
+	var out []string
+	for _, d := range s.Deps {
+		if ds := g.Stage(d); ds != nil {
+			out = append(out, ds.RealName())
+		} else {
+			out = append(out, d)
+		}
+	}
+	return out
 }
 
 func (g *GraphSpec) Stage(name string) *StageSpec {
@@ -144,8 +168,13 @@ func GenGraph(ch *Choices, p SchedGenParams, prefix string, depth int) *GraphSpe
 	}
 	specs := make([]*StageSpec, n)
 	bit := 0
+	// a nested pipeline may name its stages like the pipeline around it does
+	reuse := depth > 0 && ch.Bool(1, 3, "reuse-outer-stage-names")
 	for j := 0; j < n; j++ {
 		s := &StageSpec{Name: names[j]}
+		if reuse {
+			s.Real = string(rune('a' + j))
+		}
 		for i := 0; i < j; i++ {
 			var has bool
 			if p.SystematicN > 0 && depth == 0 {
